@@ -8,7 +8,7 @@
 //! of work futures>, wnv=<bitmask over work futures (creation order) that never complete>`.
 
 use crate::*;
-use futures_concurrency::concurrent_stream::{ConcurrentStream, IntoConcurrentStream};
+use futures_concurrency::concurrent_stream::{ConcurrentStream, Consumer, ConsumerState, IntoConcurrentStream};
 use futures_concurrency::stream::StreamExt as _;
 use futures_core::Stream;
 use std::cell::RefCell;
@@ -40,6 +40,11 @@ pub enum Term {
 
 #[derive(Default)]
 pub struct CoLog {
+    /// closure futures answer Pending on their first poll by default (wlz=1)
+    pub lazy: bool,
+    /// collect through a consumer written by the caller (the public `Consumer` trait): 0 = the crate's own,
+    /// 1 = a synchronous one whose progress() answers Empty, 2 = the same with a progress() that pends forever
+    pub cons: u8,
     /// (stage, source position, work child)
     pub inv: Vec<(u8, i32, u32)>,
     pub stack: Vec<Op>,
@@ -110,7 +115,7 @@ fn invoked(stage: u8, item: &Out, can_err: bool) -> u32 {
     let mut idx = Vec::new();
     let mut maps = Vec::new();
     let seq = analyse(item, src_child, &mut idx, &mut maps);
-    let spec = Spec { never: (wnv >> ordinal) & 1 == 1, always: false, can_err, eager: false };
+    let spec = Spec { never: ordinal < 32 && (wnv >> ordinal) & 1 == 1, always: false, can_err, eager: false, lazy: co(|c| c.lazy) };
     let id = with(|w| {
         if seq < 0 {
             w.violate(15, || format!("closure of stage {} was handed something that is not (derived from) a source item", stage));
@@ -253,6 +258,32 @@ impl Stream for Src {
     }
 }
 
+/// A consumer written by the caller: it awaits every future inside `send`, holds nothing in between (so `send`
+/// answers `Empty`) and hands the outputs over in `flush`.
+pub struct SyncCollect<T> {
+    out: Vec<T>,
+    pend: bool,
+}
+impl<T, Fut: Future<Output = T>> Consumer<T, Fut> for SyncCollect<T> {
+    type Output = Vec<T>;
+    async fn send(self: Pin<&mut Self>, fut: Fut) -> ConsumerState {
+        let item = fut.await;
+        // SAFETY: `out` holds finished outputs, nothing in it is structurally pinned.
+        unsafe { self.get_unchecked_mut() }.out.push(item);
+        ConsumerState::Empty
+    }
+    async fn progress(self: Pin<&mut Self>) -> ConsumerState {
+        if self.pend {
+            std::future::pending::<()>().await;
+        }
+        ConsumerState::Empty
+    }
+    async fn flush(self: Pin<&mut Self>) -> Vec<T> {
+        // SAFETY: as above.
+        std::mem::take(&mut unsafe { self.get_unchecked_mut() }.out)
+    }
+}
+
 fn terminal<S>(s: S, term: Term) -> BoxFut
 where
     S: ConcurrentStream + 'static,
@@ -261,7 +292,8 @@ where
 {
     match term {
         Term::Collect => Box::pin(async move {
-            let v: Vec<S::Item> = s.collect().await;
+            let cons = co(|c| c.cons);
+            let v: Vec<S::Item> = if cons == 0 { s.collect().await } else { s.drive(SyncCollect { out: Vec::new(), pend: cons == 2 }).await };
             Ret::Plain(Out::L(v.into_iter().map(IntoOut::into_out).collect()))
         }),
         Term::ForEach => Box::pin(async move {
@@ -572,7 +604,7 @@ pub fn runner(item: &PItem) {
         }
     }
     co(|c| {
-        *c = CoLog { inv: Vec::new(), stack: stack.clone(), term: Some(term), eff_limit, src_child, vec_len: l, wp: item.u("wp", 1) as u8, wnv: item.u("wnv", 0) as u32, home, created: 0 };
+        *c = CoLog { lazy: item.u("wlz", 0) != 0, cons: item.u("cons", 0) as u8, inv: Vec::new(), stack: stack.clone(), term: Some(term), eff_limit, src_child, vec_len: l, wp: item.u("wp", 1) as u8, wnv: item.u("wnv", 0) as u32, home, created: 0 };
     });
     let fut: BoxFut = if vec_src {
         let v: Vec<Out> = (0..l)
